@@ -169,6 +169,10 @@ class _VersionIndependentUnmarshaller:
         else:
             self.marshal_version = 0
 
+        # Python 3 has one integer type: only in Python 2 bytecode is a
+        # TYPE_LONG a "long" whose repr() carries an "L" suffix.
+        self.long_type = long if version < (3, 0) else int
+
         self.internStrings = []
         self.internObjects = []
         self.version_tuple = tuple()
@@ -272,6 +276,7 @@ class _VersionIndependentUnmarshaller:
 
     def t_long(self, save_ref, bytes_for_s=False):
         n = unpack("<i", self.fp.read(4))[0]
+        long = self.long_type
         if n == 0:
             return long(0)
         size = abs(n)
